@@ -142,7 +142,7 @@ def run(ctx: Ctx) -> int:
             row["res"] = "error:" + type(e).__name__
         rows.append(row)
         ctx.distinct((ft // BASE, ft % BASE < 64 or ft % BASE >= BASE - 64))
-        if len(cache._seed_keys.get(rkid, {}).get(next(iter(cache._seed_keys.get(rkid, {})), b""), {})) > 64:
+        if len(rows) % 64 == 0:       # a fresh cache now and then (keeps the number of cached L0 entries small)
             cache = dpapi_ng.KeyCache()
             cache.load_key(ctx.rng.randbytes(64), rkid)
     rows += _seed_envelope_source(ctx, len(rows))
